@@ -65,7 +65,7 @@ def run_case(ctx, kind, rng, idx):
     tol = 1e-10
     res = {}
     for cname in CONT:
-        Tin = mc.to_container(T, cname)
+        Tin = mc.to_container(T, cname, rng)
         pops = pi.copy() if give_pops else None
         fz = Frozen(Tin, pops, src, snk)
         out = {}
